@@ -19,7 +19,7 @@ COMPOUND = {
     "endblock": ["end", "block"], "endcritical": ["end", "critical"], "endenum": ["end", "enum"], "endfile": ["end", "file"],
     "selectcase": ["select", "case"], "selecttype": ["select", "type"], "doubleprecision": ["double", "precision"],
     "blockdata": ["block", "data"], "inout": ["in", "out"], "endblockdata": ["end", "block", "data"],
-    "endsubmodule": ["end", "submodule"], "elsewhere": ["else", "where"],
+    "endsubmodule": ["end", "submodule"], "elsewhere": ["else", "where"], "implicitnone": ["implicit", "none"],
 }
 
 
@@ -86,7 +86,7 @@ def normalise(toks, drop=("::",)):
         elif first is None and kind == "w":
             first = s.lower() if api.is_concrete(s) else ""
         if (kind == "p" and s == "(" and k + 1 < n and toks[k + 1][0] == "p" and toks[k + 1][1] == ")"
-                and first in ("subroutine", "call")):
+                and first in ("subroutine", "call", "entry")):
             k += 2   # empty dummy-argument / actual-argument parentheses
             continue
         if kind == "p" and s == ":" and k + 1 < n and toks[k + 1][0] == "p" and toks[k + 1][1] == ":" and "::" in drop:
